@@ -236,6 +236,23 @@ fn run_scenario(sc: &Value, idx: usize, bin: &Path, scratch: &Path, local: bool)
     // canonicalise the argv log
     let mut image: Option<String> = None;
     let mut vols: BTreeSet<String> = BTreeSet::new();
+    // the run's own names first (whatever the order of the commands): the image is pack's positional
+    // argument or - when pack was never reached - the generated libcnbtest_ name it removes, the
+    // volumes are pack's --cache names or the two derived from the image name
+    for e in &log {
+        let argv: Vec<String> = e["argv"].as_array().unwrap().iter().map(|x| x.as_str().unwrap().to_string()).collect();
+        match e["kind"].as_str().unwrap() {
+            "pack-build" => if let Ok((pos, vals, _)) = parse_pack_build(&argv) {
+                if image.is_none() { image = pos.first().cloned(); }
+                for (k, v) in &vals { if k == "--cache" { if let Some(n) = v.split("name=").nth(1) { vols.insert(n.to_string()); } } }
+            },
+            _ => {}
+        }
+    }
+    if image.is_none() {
+        image = log.iter().filter(|e| e["kind"] == "rmi").find_map(|e| e["argv"].as_array().and_then(|a| a.iter().filter_map(|x| x.as_str()).find(|n| n.starts_with("libcnbtest_")).map(str::to_string)));
+    }
+    if vols.is_empty() { if let Some(i) = &image { vols = [format!("{i}.build-cache"), format!("{i}.launch-cache")].into_iter().collect(); } }
     let mut containers: Vec<String> = vec![];
     let mut cmds: Vec<Value> = vec![];
     let mut argv_events = vec![];
